@@ -12,6 +12,7 @@ such a table over since the repair F34).
 Path attributes and embedded BGP messages are arbitrary byte strings.
 -/
 import Rc.Lemmas.Mrt
+import Rc.Lemmas.IterProto
 
 namespace Rc.Thm.C16
 open Rc Rc.Mrt
@@ -425,5 +426,91 @@ theorem et_length_underflow_panics (ts sub len mus : Nat) (rest : Bytes) (hts : 
     CommonHeader.parse (be32 ts ++ (be16 17 ++ (be16 sub ++ (be32 len ++ (be32 mus ++ rest))))) = .panic := by
   have : len < 4294967296 := by omega
   simp [CommonHeader.parse, rd32_be32, rd16_be16, *]
+
+/-! ## how the iterators are consumed does not matter
+
+`rib_entries_eq`, `tables_eq`, `single_eq` are about the iterators driven by `next()` until `None`
+(`drain`).  Rust code may also consume them through `count()`, `last()`, `nth(k)`, `skip(k)`,
+`step_by(k)`, `fold`, or some `next()` calls followed by any of these (`by_ref().take(j)`, `peekable`).
+As long as the types implement `next` only, these are the default methods of `Iterator`, functions of
+the `next()` sequence (Rc/Lemmas/IterProto.lean): instantiated below for `ribNext` (with the
+`current_table` hand-over in its state), `tableNext` and `singleNext` on every well-formed file.  What
+a Rust type OVERRIDES (`count`, `size_hint`, `nth` ..) is outside the model; "the overrides agree with
+the defaults" is checked on the real code by the harness (harness/src/common.rs `iter_protocol`, reply
+token `proto`). -/
+
+/-- a run of `drain` that returns `ok l` is the `next()` sequence `l` of Rc/Lemmas/IterProto.lean
+(nothing panicked on the way: `okNext next` and `next` agree on every state of the run) -/
+private theorem ends_of_drain {σ α : Type} (next : σ → Outcome (Option (α × σ))) :
+    ∀ (f : Nat) (s : σ) (l : List α), drain next f s = .ok l → IterProto.Ends (IterProto.okNext next) s l := by
+  intro f
+  induction f with
+  | zero => intro s l h; simp [drain] at h
+  | succ f ih =>
+    intro s l h
+    unfold drain at h
+    cases hn : next s with
+    | ok r =>
+      cases r with
+      | none =>
+        simp only [hn, Outcome.ok.injEq] at h; subst h
+        exact IterProto.Ends.nil (by simp [IterProto.okNext, hn])
+      | some p =>
+        obtain ⟨a, s'⟩ := p
+        simp only [hn] at h
+        cases hd : drain next f s' with
+        | ok as =>
+          simp only [hd, Outcome.ok.injEq] at h; subst h
+          exact IterProto.Ends.cons (s' := s') (by simp [IterProto.okNext, hn]) (ih s' as hd)
+        | err => simp [hd] at h
+        | panic => simp [hd] at h
+    | err => simp [hn] at h
+    | panic => simp [hn] at h
+
+/-- **rib_iterator_protocol.**  On every well-formed file every consumption the default methods allow
+of `MrtFile::rib_entries()` - `count()`, `last()`, `collect()`, any `fold`, `nth(k)`, `skip(k)`,
+`step_by(k + 1)`, and each of these after `by_ref().take(j)` - observes exactly the entries the file
+contains (`entriesOf f`, the list of `rib_entries_eq`).  (First conjunct: the state `rib_entries()`
+starts in - the peer index read, the parser at the first RIB record, no current table.) -/
+theorem rib_iterator_protocol (f : FileSpec) (h : WfFile f) :
+    extractPeerIndexTable (encFile f) = .ok (peersOf f, encTables f.tables) ∧
+      IterProto.Protocol (IterProto.okNext (ribNext (peersOf f))) ⟨encTables f.tables, none, none⟩ (entriesOf f) := by
+  have hx := extract_encFile f h
+  have he := rib_entries_eq f h
+  rw [ribEntries_of_parts hx] at he
+  exact ⟨hx, IterProto.protocol_of_ends (ends_of_drain _ _ _ _ he)⟩
+
+/-- **rib_count_after_partial** ("iteration conserves entries" for `next()`* then `count()`): after any
+`j` calls of `next()` - wherever that leaves the iterator, inside a table (`current_table` is `Some`)
+or between two - the `j` entries seen are the first `j` of the file and `count()` of the rest is the
+number of entries of the file minus `j`. -/
+theorem rib_count_after_partial (f : FileSpec) (h : WfFile f) (j : Nat) (hj : j ≤ (entriesOf f).length) :
+    (IterProto.advance (IterProto.okNext (ribNext (peersOf f))) j ⟨encTables f.tables, none, none⟩).1
+        = (entriesOf f).take j ∧
+      ∃ fuel, IterProto.count (IterProto.okNext (ribNext (peersOf f))) fuel
+        (IterProto.advance (IterProto.okNext (ribNext (peersOf f))) j ⟨encTables f.tables, none, none⟩).2
+          = some ((entriesOf f).length - j) := by
+  have hr := (rib_iterator_protocol f h).2.rest j hj
+  obtain ⟨fuel, hc⟩ := (IterProto.protocol_of_ends hr.2).count
+  exact ⟨hr.1, fuel, by simpa using hc⟩
+
+/-- **tables_iterator_protocol.**  The same for `MrtFile::tables()` (the iterator over the RIB records
+behind `tables_eq`) .. -/
+theorem tables_iterator_protocol (f : FileSpec) (h : WfFile f) :
+    IterProto.Protocol (IterProto.okNext tableNext) (encTables f.tables) (tablesOf f) :=
+  IterProto.protocol_of_ends (ends_of_drain _ _ _ _
+    (drain_tables f.peers.length f.tables h.2.2.2.2.2.2 (f.tables.length + 1) (by omega)))
+
+/-- .. and for the `SingleEntryIterator` of every table of a well-formed file. -/
+theorem single_iterator_protocol (f : FileSpec) (h : WfFile f) (t : TableSpec) (ht : t ∈ f.tables) :
+    IterProto.Protocol (IterProto.okNext (singleNext t.hdr.pfx)) t.hdr.entries
+      (t.entries.map fun e => (t.pfx, e.peerIdx, e.attrs)) := by
+  have he := single_eq f h t ht
+  unfold single at he
+  exact IterProto.protocol_of_ends (ends_of_drain _ _ _ _ he)
+
+/-- the hypotheses are satisfiable by `demoFile` (tables of several entries and of one), see
+`example : WfFile demoFile` above -/
+example := rib_count_after_partial demoFile (by decide) 1
 
 end Rc.Thm.C16
